@@ -4,8 +4,8 @@ import (
 	"fmt"
 	"os"
 	"runtime"
-	"strconv"
 	"sort"
+	"strconv"
 	"strings"
 	"sync"
 )
@@ -25,21 +25,21 @@ var jsonFrontEnds = []feSpec{
 }
 
 type feResult struct {
-	spec   feSpec
-	multi  bool
-	name   string
-	dis    map[string]Disagreement
-	undec  []string
-	stats  ExploreStats
-	err    error
-	starts int
-	notes  []string
-	classes int
-	tracked []string
-	noRef   bool
-	superset bool
-	self     bool
-	cross    bool
+	spec         feSpec
+	multi        bool
+	name         string
+	dis          map[string]Disagreement
+	undec        []string
+	stats        ExploreStats
+	err          error
+	starts       int
+	notes        []string
+	classes      int
+	tracked      []string
+	noRef        bool
+	superset     bool
+	self         bool
+	cross        bool
 	clsEq, clsLt map[int]bool
 	clsIdentity  bool
 }
